@@ -5,5 +5,5 @@ mod rig;
 mod wire;
 
 fn main() {
-    vmon::run_main(&[("C27", c27::run), ("C28", meshrig::run_c28), ("C29", meshrig::run_c29), ("C35", meshrig::run_c35), ("C36", c36::run)]);
+    vmon::run_main(&[("C27", c27::run), ("C28", meshrig::run_c28), ("C29", meshrig::run_c29), ("C32", meshrig::run_c32), ("C35", meshrig::run_c35), ("C36", c36::run)]);
 }
